@@ -102,6 +102,111 @@ def _hedge_reward_rule(ctx, prog, hcls):
         ctx.undecided("the score update does not use a named reward")
 
 
+def _ranking_rules(ctx, prog, es, acq):
+    """R9: the values that are ranked are the acquisition function's own output (copies / reshapes / concatenations only): a
+    value-altering step in between (nan_to_num, abs, clipping, rounding) changes which candidate ranks first - NaN sorts
+    last under argsort, 0 sorts before every positive value.  R10: within one generation the selection of the
+    survivors lies on every path through the loop body: an early ``break`` / ``continue`` before it leaves the result
+    buffers as they were allocated (uninitialised) when it happens in the first generation."""
+    from ..flow import BasePolicy, TagFlow
+
+    # tabled: the documented fallback 'the acquisition returned nothing -> random ranking': a random draw stored under a
+    # guard that asks whether the acquisition output is None / empty
+    acq_names = set()
+    for n_ in ast.walk(es.node):
+        if isinstance(n_, ast.Assign) and isinstance(n_.value, ast.Call) and any(t is acq for t in prog.resolve_call(es, n_.value)):
+            t0 = n_.targets[0]
+            acq_names |= {t0.elts[0].id} if isinstance(t0, ast.Tuple) and isinstance(t0.elts[0], ast.Name) else ({t0.id} if isinstance(t0, ast.Name) else set())
+    local_names = {t.id for t, v, s_, k in iter_stores(es.node) if isinstance(t, ast.Name)} - set(es.params)
+    fallback = set()
+    for n_ in ast.walk(es.node):
+        if isinstance(n_, ast.Call) and call_name(n_) in ("np.random.rand", "np.random.random", "np.random.uniform"):
+            for t_, pol_ in guard_of(prog, es, n_):
+                if pol_ and any(isinstance(x, ast.Name) and x.id in acq_names for x in ast.walk(t_)) and any(isinstance(x, ast.Compare) for x in ast.walk(t_)):
+                    fallback.add(id(n_))
+
+    class P(BasePolicy):
+        row_select_preserves = True
+
+        def eval_unpack(self, value, i, n, state, flow):
+            if isinstance(value, ast.Call) and any(t is acq for t in prog.resolve_call(es, value)) and i == 0:
+                return frozenset({"ACQ"})
+            return super().eval_unpack(value, i, n, state, flow)
+
+        def eval_unknown_path(self, expr, state, flow):
+            # a local that is not bound yet on this path (reading it would raise NameError): vacuous origin
+            if isinstance(expr, ast.Name) and expr.id in local_names and expr.id not in state:
+                return frozenset({"ACQ"})
+            return frozenset()
+
+        def eval_call(self, expr, state, flow):
+            if any(t is acq for t in prog.resolve_call(es, expr)):
+                return frozenset({"ACQ"})
+            n = call_name(expr)
+            if id(expr) in fallback:
+                return frozenset({"ACQ"})
+            if n in ("np.append", "np.concatenate", "np.vstack", "np.hstack") and expr.args:
+                parts = expr.args[0].elts if isinstance(expr.args[0], (ast.Tuple, ast.List)) else expr.args[:2]
+                out = None
+                for a in parts:
+                    t = self.eval(a, state, flow)
+                    out = t if out is None else out & t
+                return out or frozenset()
+            return frozenset()
+
+    ctx.rule("R9", "the ranked values are the acquisition function's output unchanged (copies, reshapes and concatenations only)", floor=1)
+    fl = TagFlow(prog, es, P())
+    n9 = 0
+    for c in ast.walk(es.node):
+        if isinstance(c, ast.Call) and call_name(c) in ("np.argsort", "np.argmin") and c.args:
+            tg = fl.tags(c.args[0])
+            if tg is None:
+                continue
+            n9 += 1
+            ctx.check("ACQ" in tg, es, c, f"{call_name(c)}({canon(c.args[0])}) ranks acquisition values", f"'{canon(c.args[0])}' is ranked after a value-altering step (not only copies / reshapes / concatenations of the acquisition output): e.g. nan_to_num turns a NaN acquisition value into 0, which outranks every positive value", construct=f"ranking of altered values {canon(c.args[0])}")
+    if n9 == 0:
+        ctx.rules["R9"].floor = 0
+    ctx.rule("R10", "the survivor selection lies on every path through a generation (no early exit before it)", floor=1)
+    cfg = cfg_of(es)
+    rets = [n for n in ast.walk(es.node) if isinstance(n, ast.Return) and isinstance(n.value, ast.Tuple)]
+    names = {x.value.id for r in rets for x in r.value.elts if isinstance(x, ast.Subscript) and isinstance(x.value, ast.Name)}
+    loops = [n for n in ast.walk(es.node) if isinstance(n, (ast.For, ast.While)) and prog.function_of(n) is es]
+    done = 0
+    for lp in loops:
+        sel = [s_ for t, v, s_, k in iter_stores(lp) if isinstance(t, ast.Name) and t.id in names and isinstance(v, ast.Subscript)]
+        if not sel:
+            continue
+        done += 1
+        head = cfg.head_of(lp)
+        avoid = {cfg.node_of(s_).id for s_ in sel if cfg.node_of(s_) is not None}
+        body_entry = cfg.succ(head.id, "T")
+        exits = [x for x in cfg.succ(head.id, "F")]
+        ivar = canon(lp.target) if isinstance(lp, ast.For) else None
+        early = []
+        accepted = set()
+        for be in body_entry:
+            if be in avoid:
+                continue
+            reach = cfg.reachable(be, avoiding=avoid, skip_exc=True) | {be}
+            for x in ast.walk(lp):
+                if isinstance(x, (ast.Break, ast.Continue, ast.Return)) and prog.function_of(x) is es:
+                    nx = cfg.node_of(x)
+                    if nx is not None and nx.id in reach:
+                        g = guard_canon(prog, es, x)
+                        later_only = ivar is not None and any(c in (f"(0 < {ivar})", f"({ivar} != 0)", f"(0 != {ivar})", f"(1 <= {ivar})", f"not ({ivar} == 0)", f"not (0 == {ivar})") for c in g)
+                        if not later_only:
+                            early.append(x)
+                        else:
+                            accepted.add(nx.id)
+            if not early:
+                reach2 = cfg.reachable(be, avoiding=avoid | accepted, skip_exc=True) | {be}
+                if head.id in reach2 or any(x in reach2 for x in exits):
+                    early.append(lp)  # fall-through path without the selection
+        ctx.check(not early, es, early[0] if early else lp, f"selection of {sorted(names)} on every path through the generation loop", f"a path through the generation loop skips the selection of {sorted(names)} ({type(early[0]).__name__.lower() if early else ''} before it, possible in the first generation): the strategy then returns the buffers as allocated (uninitialised memory) as its proposal", construct="generation loop can skip the selection")
+    if done == 0:
+        ctx.rules["R10"].floor = 0
+
+
 def check(ctx):
     prog = ctx.prog
     R = roles_of(prog)
@@ -237,6 +342,9 @@ def check(ctx):
             b = bind_args(es, c)
             ctx.check(canon(b.get("non_box_cons")) == "self.non_box_cons", hcall, c, "strategy called with the hedge's constraint callable", "a search strategy is run without the user's constraint callable", construct=f"strategy constraint argument {canon(b.get('non_box_cons'))}")
 
+    # ------------------------------------------------------------------ R9 / R10
+    _ranking_rules(ctx, prog, es, acq)
+
     # ------------------------------------------------------------------ R4
     ctx.rule("R4", "a search step costs at most one target evaluation", floor=2)
     if len(lcs) != 1:
@@ -313,6 +421,9 @@ def check(ctx):
     ctx.rule("R7", "every reward added to the hedge scores is finite: GP-predicted quantities are used only under finiteness guards", floor=2)
     _hedge_reward_rule(ctx, prog, hcall.cls)
 
+    from .common import helper_purity
+
+    helper_purity(ctx, prog, "R8")
     from . import meshflow
 
     meshflow.report(ctx, "R6", lambda fn, e, R: e == meshflow.SRCH_E)
